@@ -6,7 +6,7 @@ import z3
 
 from .common import *  # noqa: F401,F403
 from .common import (Check, OracleFailure, SymEnv, RealEnv, both, sym_pixels, pixels_from_inputs, scratch_file, symcooler)
-from .model import concrete_bins, read_pixels_sym, read_pixels_real, validity_sym, validity_real
+from .model import named_bins, tables_kept_sym, tables_kept_real, concrete_bins, read_pixels_sym, read_pixels_real, validity_sym, validity_real
 
 
 def unordered_sym(p):
@@ -15,7 +15,7 @@ def unordered_sym(p):
     sc = symcooler()
     layout, Ks, upper = p["layout"], p["Ks"], p["upper"]
     n = sum(layout)
-    bins = concrete_bins(layout, p["kind"])
+    bins = named_bins(layout, p["kind"], p.get("chrom_names"))
     tables = []
     for i, K in enumerate(Ks):
         b1, b2, v = sym_pixels(n, K, upper, prefix=f"t{i}_")
@@ -56,6 +56,7 @@ def unordered_sym(p):
                      **({"dtypes": {"count": np.dtype("float64")}} if fl else {}), **extra)
     for cond, msg in validity_sym(out):
         prove(cond, "unordered output: " + msg)
+    tables_kept_sym(out, bins, what="unordered output")
     pix, attrs = read_pixels_sym(out)
     o1, o2, oc = pix["bin1_id"], pix["bin2_id"], pix["count"]
     conds = []
@@ -73,7 +74,7 @@ def unordered_sym(p):
 def unordered_real(p, inputs):
     import cooler
     layout, Ks, upper = p["layout"], p["Ks"], p["upper"]
-    bins = concrete_bins(layout, p["kind"])
+    bins = named_bins(layout, p["kind"], p.get("chrom_names"))
     tables = [pixels_from_inputs(inputs, K, prefix=f"t{i}_") for i, K in enumerate(Ks)]
     fl = p.get("float_counts")
     if fl:
@@ -99,6 +100,7 @@ def unordered_real(p, inputs):
     cooler.create_cooler(out, bins, chunks, ordered=False, symmetric_upper=upper, mergebuf=inputs["mergebuf"], max_merge=inputs["max_merge"],
                          **({"dtypes": {"count": np.dtype("float64")}} if fl else {}), **extra)
     validity_real(out)
+    tables_kept_real(out, bins)
     exp = {}
     for b1, b2, v in tables:
         for r, c, x in zip(b1, b2, v):
@@ -124,6 +126,7 @@ def _cases(tier):
             out.append(dict(layout=list(layout), kind=kind, Ks=list(Ks), upper=upper))
     # a user dtype for the value column (float with fractional values) must survive both merge passes
     out.append(dict(layout=[2], kind="fixed", Ks=[1, 1, 1], upper=True, float_counts=True))
+    out.append(dict(layout=[1, 2], kind="variable", Ks=[1, 1, 1], upper=True, chrom_names=["chr2", "chr10"]))
     # chunk counts that are not a multiple of their integer square root: the two-pass grouping must still cover the last chunks
     out.append(dict(layout=[2], kind="fixed", Ks=[1, 1, 1, 1, 1], upper=True, two_pass_only=True))
     if tier != "quick":
